@@ -342,7 +342,23 @@ fn plan_topn(
                     .map(|p| output_names.iter().any(|n| *n == p.value))
                     .unwrap_or(false) =>
             {
-                parts.last().expect("checked").value.clone()
+                let last = parts.last().expect("checked").value.clone();
+                // A qualified name denotes an INPUT column. It may be sorted on
+                // at the merge stage through the output column of that bare
+                // name only if that output column is not ANOTHER expression
+                // which merely carries the name as its alias
+                // (`SELECT t.b AS a ... ORDER BY t.a`).
+                let text = o.expr.to_string();
+                let shadowed = select.projection.iter().any(|item| {
+                    matches!(item, sa::SelectItem::ExprWithAlias { expr, alias }
+                        if alias.value == last && expr.to_string() != text && expr.to_string() != last)
+                });
+                if shadowed {
+                    return Err(unsupported(format!(
+                        "ORDER BY {text}: the output column `{last}` is a different expression"
+                    )));
+                }
+                last
             }
             other => {
                 return Err(unsupported(format!(
